@@ -39,12 +39,20 @@ class Server(object):
         # type: (str, tuple[t.Any], dict[str, t.Any]) -> tuple[t.Any, bool]
         try:
             is_ok = True
+            if name.startswith('_') or name in ('run', 'process'):
+                # the machinery of the server itself is not a request
+                raise AttributeError("'Server' object has no attribute '{}'".format(name))
             result = getattr(self, name)(*args, **kwargs)
-        except (Exception, SystemExit, KeyboardInterrupt) as e:
-            # a request must not take the server down: eval('sys.exit()')
+        except BaseException as e:
+            # a request must not take the server down, whatever it raises:
+            # eval('sys.exit()'), asyncio.CancelledError, GeneratorExit
             logger.exception('%s error', name)
             is_ok = False
-            result = e.__class__.__name__, str(e)
+            try:
+                message = str(e)
+            except Exception:
+                message = 'unprintable exception'
+            result = e.__class__.__name__, message
 
         # logger.error('PROCESS %r %r %r: %r', name, args, kwargs, result)
         return result, is_ok
